@@ -299,6 +299,27 @@ func memDirected(rng *RNG) []Case {
 			}
 			cases = append(cases, Case{Tag: "directed:mount-copy", Lines: lines})
 		}
+		// acceptance is judged against the repository as it is NOW: a manifest that was accepted once, whose layer (or
+		// member) has been deleted since, is refused when the same bytes come again (seed C02-14)
+		for _, pr := range [][2]string{{"m1", "blob"}, {"i1", "m1"}} {
+			m := byName[pr[0]]
+			lines := []string{fmt.Sprintf("mem init %d", imm)}
+			for _, bl := range u.blobs {
+				lines = append(lines, linePushBlob("a", "application/octet-stream", sha256Digest(bl), int64(len(bl)), bl))
+			}
+			if pr[0] == "i1" {
+				lines = append(lines, linePushManifest("a", "", byName["m1"].data, byName["m1"].mt))
+			}
+			lines = append(lines, linePushManifest("a", "", m.data, m.mt))
+			if pr[1] == "blob" {
+				lines = append(lines, fmt.Sprintf("mem deleteblob %s %s", tok("a"), tok(sha256Digest(u.blobs[1]))))
+			} else {
+				lines = append(lines, fmt.Sprintf("mem deletemanifest %s %s", tok("a"), tok(sha256Digest(byName["m1"].data))))
+			}
+			lines = append(lines, linePushManifest("a", "again", m.data, m.mt), linePushManifest("a", "", m.data, m.mt),
+				fmt.Sprintf("mem resolvetag %s %s", tok("a"), tok("again")), fmt.Sprintf("mem gettag %s %s", tok("a"), tok("again")))
+			cases = append(cases, Case{Tag: "directed:repush-after-delete", Lines: lines})
+		}
 		// the same bytes under two media types: what a tag serves is the manifest as it is stored now
 		for _, order := range [][2]string{{"m1", "img-param"}, {"img-param", "m1"}, {"opaque-param", "opaque-upper"}} {
 			first, second := byName[order[0]], byName[order[1]]
